@@ -133,8 +133,9 @@ def collect_known(scn):
         props(b['props'])
         for c in b['children']:
             walk(c)
-    if 'builder' in scn['args']:
-        walk(scn['args']['builder'])
+    for bk in ('builder', 'x', 'y'):
+        if bk in scn['args']:
+            walk(scn['args'][bk])
     for k, v in scn['args'].items():
         if isinstance(v, str):
             refs.add(v)
@@ -180,18 +181,37 @@ def confirm(runner, ex, label, prop, tag):
     try:
         scn = dict(op=scn_sym['op'], doms=[cz.dom(d) for d in scn_sym['doms']], args={})
         for k, v in scn_sym['args'].items():
-            if k == 'builder':
+            if k in ('builder', 'x', 'y'):
                 scn['args'][k] = cz.builder(v)
             elif isinstance(v, list):
                 scn['args'][k] = [cz.ref(x) for x in v]
             else:
                 scn['args'][k] = cz.ref(v)
+        if scn_sym['op'] == 'builder':
+            e = scn_sym['extra']
+            scn['args'].update(method=e['method'], val=cz.variant(e['val']), val2=cz.variant(e['val2']), name=cz.string(e['name']))
+            if 'newref' in e:
+                scn['args']['newref'] = cz.ref(e['newref'])
         known_r, known_u = collect_known(scn)
         scn['probe_uids'] = [list(u) for u in sorted(known_u)]
         panicked = scn_sym.get('panicked')
         predicted = None
         pred_taken = None
-        if not panicked:
+        if not panicked and scn_sym['op'] == 'builder':
+            if scn_sym.get('builder_result') is None:
+                return False, None, 'builder method did not complete'
+            insts = []
+
+            def walk(b, parent):
+                bb = cz.builder(b)
+                insts.append(dict(ref=bb['ref'], referent=bb['ref'], parent=parent, children=[c['ref'] for c in bb['children']], name=bb['name'],
+                                  **{'class': bb['class']}, props=bb['props']))
+                for c in b.f[H.B['children']].items:
+                    walk(c, bb['ref'])
+            walk(scn_sym['builder_result'], '%032x' % 0)
+            predicted = ([dict(root=insts[0]['ref'], instances={n['ref']: n for n in insts})], [])
+            pred_taken = None
+        elif not panicked:
             live = [cz.dom(d) for d in scn_sym['live']]
             pl = []
             for d in live:
@@ -229,7 +249,14 @@ def confirm(runner, ex, label, prop, tag):
         rec['predicted'] = p_rel
         rec['native_relabelled'] = n_rel
         rec['predicted_uid_taken'] = pred_taken
-        ok = p_rel == n_rel and [list(x) for x in pred_taken] == nat.get('uid_taken')
+        if scn['op'] == 'builder':
+            # duplicate property keys collapse when the builder becomes an instance (last one wins), ids may be regenerated
+            # by WeakDom::new: compare tree shape, names, classes and the key sets
+            def strip(d):
+                return [dict(root=x['root'], instances={k: dict(parent=n['parent'], children=n['children'], name=n['name'], cls=n['cls'], keys=sorted({p[0] for p in n['props']})) for k, n in x['instances'].items()}) for x in d['doms']]
+            ok = strip(p_rel) == strip(n_rel)
+        else:
+            ok = p_rel == n_rel and [list(x) for x in pred_taken] == nat.get('uid_taken')
         detail = 'native post-state equals the predicted post-state on which the postcondition fails' if ok else 'native post-state differs from the symbolic prediction (encoder error)'
     rec['confirmed'] = ok
     rec['detail'] = detail
